@@ -489,6 +489,9 @@ func (e *Engine) registerDomain() {
 	r("opaque:context.Err", func(c *CallCtx) []Outcome { return c.ret(IfaceV{}) })
 	r("opaque:context.Value", func(c *CallCtx) []Outcome { return c.ret(IfaceV{}) })
 
+	// ------------------------------------------------------------ go-redis result decoding
+	r("(*github.com/redis/go-redis/v9.SliceCmd).Scan", func(c *CallCtx) []Outcome { return c.e.redisScan(c) })
+
 	// ------------------------------------------------------------ encoding/json
 	r("encoding/json.Unmarshal", func(c *CallCtx) []Outcome { return c.e.jsonUnmarshal(c) })
 
@@ -1081,3 +1084,82 @@ type docAssign struct {
 }
 
 var _ ssa.Value
+
+// redisScan models (*redis.SliceCmd).Scan for HMGET results: the i-th value goes to the struct
+// field tagged `redis:"<i-th field name>"`; nil values are skipped; strings into string fields,
+// instants into time.Time fields (go-redis' RFC3339Nano round trip is trusted).
+func (e *Engine) redisScan(c *CallCtx) []Outcome {
+	st := c.st
+	cmd := c.args[0].(Ptr)
+	if cmd.IsNil() {
+		return c.panicOut("nil-deref-slicecmd")
+	}
+	ct := e.namedType("github.com/redis/go-redis/v9", "SliceCmd")
+	sv := st.load(cmd).(*StructV)
+	base := sv.f[fieldIndex(ct, "baseCmd")].(*StructV)
+	bt := ct.Underlying().(*types.Struct).Field(fieldIndex(ct, "baseCmd")).Type()
+	if errv := base.f[fieldIndex(bt, "err")].(IfaceV); errv.t != nil {
+		return c.ret(errv)
+	}
+	args := e.sliceValues(st, base.f[fieldIndex(bt, "args")])
+	vals := e.sliceValues(st, sv.f[fieldIndex(ct, "val")])
+	if len(args) < 2 {
+		return c.ret(e.newError(st, "redis: Scan without keys"))
+	}
+	keys := args[2:]
+	dst := c.args[1].(IfaceV)
+	pt, ok := dst.t.Underlying().(*types.Pointer)
+	if !ok {
+		return c.ret(e.newError(st, "redis: Scan(non-pointer)"))
+	}
+	stt, ok := pt.Elem().Underlying().(*types.Struct)
+	if !ok {
+		unm("redis Scan into %v", pt.Elem())
+	}
+	dp := dst.v.(Ptr)
+	for i, kv := range keys {
+		if i >= len(vals) {
+			break
+		}
+		kname := mustConstStr(kv.(IfaceV).v)
+		val := vals[i].(IfaceV)
+		if val.t == nil {
+			continue
+		}
+		for fi := 0; fi < stt.NumFields(); fi++ {
+			tag := stt.Tag(fi)
+			j := strings.Index(tag, `redis:"`)
+			if j < 0 {
+				continue
+			}
+			rest := tag[j+7:]
+			kq := strings.IndexByte(rest, '"')
+			if kq < 0 || rest[:kq] != kname {
+				continue
+			}
+			fp := Ptr{obj: dp.obj, path: append(append([]int(nil), dp.path...), fi)}
+			ft := stt.Field(fi).Type()
+			switch v := val.v.(type) {
+			case *Str:
+				if isNamed(ft, "time", "Time") {
+					if tv, ok := st.ghost[strKey("timefmt", v)]; ok {
+						st.store(fp, tv)
+					} else {
+						unm("redis Scan: parsing a time from an arbitrary string")
+					}
+				} else {
+					st.store(fp, v)
+				}
+			case TimeV:
+				if isNamed(ft, "time", "Time") {
+					st.store(fp, v)
+				} else {
+					st.store(fp, e.opaqueString(st, "timefmt"))
+				}
+			default:
+				unm("redis Scan of %T", val.v)
+			}
+		}
+	}
+	return c.ret(IfaceV{})
+}
